@@ -5,7 +5,7 @@ quote-aware scanner) differs from the list computed from the written mentions by
 merge / quoting / boolean / implied / name-mapping rules of the statement."""
 import itertools
 
-from .. import core, outparse, probes
+from .. import core, hostile, outparse, probes
 
 ID = 'C03'
 RULE = ('cases = (sequence of attribute mentions on one element, syntax, attribute options); mentions: #v .v [n=v] [n="v"] [n=\'v\'] [n] [n.] [!n] [!n=v] '
@@ -140,7 +140,7 @@ class Mon:
     def __init__(self, ctx):
         import emmet
         self.ctx = ctx
-        self.expand = emmet.expand
+        self.expand = hostile.wrap(emmet.expand, ctx)
 
     def check(self, mentions, syntax, opts, cls):
         ctx = self.ctx
